@@ -18,9 +18,11 @@ def sh(cmd, cwd=None, timeout=3600):
 def main():
     pid = sys.argv[1].upper()
     keep = "--keep-worktree" in sys.argv
+    name = sys.argv[sys.argv.index("--name") + 1] if "--name" in sys.argv else pid  # directory under seeded/
+    wt_override = sys.argv[sys.argv.index("--wt") + 1] if "--wt" in sys.argv else None
     if "--recheck-only" in sys.argv:
         # re-run our check against the stored patch and refresh the check fields of meta.json
-        dst = os.path.join(VERIF, "seeded", pid)
+        dst = os.path.join(VERIF, "seeded", name)
         meta = json.load(open(os.path.join(dst, "meta.json")))
         rc, out = sh("%s %s/tools/selftest.py %s/patch.diff %s" % (sys.executable, VERIF, dst, pid), cwd=VERIF, timeout=7200)
         first = out.strip().splitlines()[0] if out.strip() else "no output"
@@ -33,9 +35,9 @@ def main():
     extra = ""
     if "--demo-flags" in sys.argv:
         extra = sys.argv[sys.argv.index("--demo-flags") + 1]
-    wt = "/tmp/wt_%s" % pid.lower()
+    wt = wt_override or "/tmp/wt_%s" % pid.lower()
     mut = os.path.join(wt, "mutation")
-    dst = os.path.join(VERIF, "seeded", pid)
+    dst = os.path.join(VERIF, "seeded", name)
     os.makedirs(dst, exist_ok=True)
     for f in os.listdir(mut):
         p = os.path.join(mut, f)
